@@ -460,6 +460,7 @@ func newFixture(dir string, seed int64, ruleLists [][]rule) (*fixture, error) {
 // ---- client ---------------------------------------------------------------------------------
 
 var reqCounter int64
+var runaways int64 // requests that never returned although the backend kept being hit
 
 type client struct {
 	addr string
@@ -473,7 +474,9 @@ func (c *client) close() {
 	}
 }
 
-func (c *client) do(method string, raw []byte) (*hx.RawResp, error) {
+// do sends one request; a connection that broke before any answer (stale keep-alive) is replaced once or
+// twice - reset() forgets what the backend recorded for the failed attempt -, a time-out is final.
+func (c *client) do(method string, raw []byte, reset func()) (*hx.RawResp, error) {
 	var lastErr error
 	for try := 0; try < 3; try++ {
 		if c.rc == nil {
@@ -489,6 +492,10 @@ func (c *client) do(method string, raw []byte) (*hx.RawResp, error) {
 		if err != nil {
 			c.close()
 			lastErr = err
+			if ne, ok := err.(net.Error); ok && ne.Timeout() {
+				return nil, err
+			}
+			reset()
 			continue
 		}
 		if strings.EqualFold(r.Header.Get("Connection"), "close") || r.Err != "" {
@@ -667,13 +674,18 @@ func evalInternal(f *fixture, cl *client, c *icase) ([]finding, []string, *iobs,
 	if err != nil {
 		return nil, nil, nil, err
 	}
+	if o.runaway > 0 {
+		atomic.AddInt64(&runaways, 1)
+		return []finding{{"bounded", fmt.Sprintf("no answer within the client's time-out while %d requests had reached the backend (limit 1+%d)", o.runaway, maxRedirects)}}, nil, o.obs, nil
+	}
 	fs, drift := judgeInternal(c, o.obs, h, o.body)
 	return fs, drift, o.obs, nil
 }
 
 type fullObs struct {
-	obs  *iobs
-	body []byte
+	obs     *iobs
+	body    []byte
+	runaway int // > 0: the client got no answer while this many requests had reached the backend
 }
 
 func runInternalFull(f *fixture, cl *client, c *icase) (*fullObs, http.Header, error) {
@@ -696,8 +708,13 @@ func runInternalFull(f *fixture, cl *client, c *icase) (*fullObs, http.Header, e
 	} else {
 		b.WriteString("\r\n")
 	}
-	r, err := cl.do(c.Method, b.Bytes())
+	r, err := cl.do(c.Method, b.Bytes(), func() { f.be.take(id) })
 	if err != nil {
+		// no answer: unbounded recursion shows as an ever growing number of backend requests
+		time.Sleep(200 * time.Millisecond)
+		if hs := f.be.take(id); len(hs) > maxRedirects+1 {
+			return &fullObs{obs: &iobs{Err: err.Error(), Hits: hs[:maxRedirects+2]}, runaway: len(hs)}, nil, nil
+		}
 		return nil, nil, err
 	}
 	o := &iobs{Status: r.Status, Body: string(r.Body), Err: r.Err, Hits: f.be.take(id)}
@@ -762,7 +779,7 @@ func runAuth(f *fixture, cl *client, c *icase) (*authOb, error) {
 	}
 	id := strconv.FormatInt(atomic.AddInt64(&reqCounter, 1), 10)
 	raw := fmt.Sprintf("%s %s HTTP/1.1\r\nHost: ar%d.test:%d\r\nX-Req-Id: %s\r\nX-Part: auth\r\n%s\r\n", c.Method, authPath[c.Path], idx, f.aport, id, authHeader(c.Creds))
-	r, err := cl.do(c.Method, []byte(raw))
+	r, err := cl.do(c.Method, []byte(raw), func() { f.be.takeAuth(id) })
 	if err != nil {
 		return nil, err
 	}
@@ -952,6 +969,9 @@ func TestCx03Internal(t *testing.T) {
 				var ob interface{}
 				var class string
 				if c.Part == "internal" {
+					if c.TooMany && atomic.LoadInt64(&runaways) >= 3 {
+						continue // every cycle would cost a client time-out
+					}
 					f1, d1, o, err := evalInternal(fx, cli, c)
 					if err != nil {
 						mu.Lock()
@@ -1045,10 +1065,16 @@ func TestCx03Internal(t *testing.T) {
 	// ---- every suspect once more, alone, on a fresh connection; only what reproduces is reported
 	noticedI, noticedA := false, false
 	sort.Slice(suspects, func(i, j int) bool { return suspects[i].c.anyKey() < suspects[j].c.anyKey() })
-	reported := 0
+	reported, confirmedRunaway := 0, 0
 	for _, s := range suspects {
 		if reported >= 40 {
 			break
+		}
+		if strings.HasPrefix(s.fs[0].what, "no answer") {
+			if confirmedRunaway >= 2 {
+				continue // each confirmation costs a client time-out
+			}
+			confirmedRunaway++
 		}
 		fs2, ob2, err := evalAny(fx, s.c)
 		if err != nil {
